@@ -135,7 +135,7 @@ def observe(trace_files, workdir, invs=None, timeout=3600):
         json.dump(sorted(invs), open(invfile, "w"))
     pending = list(enumerate(trace_files))
     running = []
-    maxpar = max(1, NCPU)
+    maxpar = max(1, min(NCPU, 10))   # measured: throughput saturates at ~8 parallel JVMs on this machine
 
     def start(k, tf):
         meta = os.path.join(workdir, "meta_obs_%d" % k)
